@@ -461,7 +461,10 @@ impl TestRunnerMemoryAccessor {
 
 impl MemoryAccessor for TestRunnerMemoryAccessor {
     fn read(&mut self, address: u16, len: usize) -> Vec<u8> {
-        self.ram.read().unwrap().ram[address as usize..address as usize + len].to_vec()
+        let ram = &self.ram.read().unwrap().ram;
+        // A read that starts near the top of memory returns the bytes that exist
+        let end = (address as usize + len).min(ram.len());
+        ram[address as usize..end].to_vec()
     }
 
     fn write(&mut self, _address: u16, _bytes: &[u8]) {
